@@ -428,6 +428,9 @@ func (vc *VC) lockCall(fr *Frame, st *State, c *ssa.CallCommon, key string, pos 
 	if id == "" {
 		return
 	}
+	if (strings.HasSuffix(key, ".Lock") || strings.HasSuffix(key, ".RLock")) && vc.topCon != nil && vc.topCon.Flags["interference"] && st.locks[id] == 0 {
+		vc.interfere(fr, st, c.Args[0])
+	}
 	switch key {
 	case "sync.Mutex.Lock", "sync.RWMutex.Lock":
 		st.locks[id] = 2
@@ -440,6 +443,63 @@ func (vc *VC) lockCall(fr *Frame, st *State, c *ssa.CallCommon, key string, pos 
 	default:
 		delete(st.locks, id)
 	}
+}
+
+// interfere (functions flagged `interference`): when a mutex is acquired, the fields it guards (per the
+// `guarded` declarations) may have been changed by other goroutines since it was last held: scalar
+// fields and slice headers take arbitrary well-formed values, map fields keep their identity but take
+// arbitrary contents. Everything computed from earlier reads is thereby stale, which is what exposes
+// check-then-act sequences whose check and act lie in different critical sections.
+func (vc *VC) interfere(fr *Frame, st *State, muArg ssa.Value) {
+	fa, ok := muArg.(*ssa.FieldAddr)
+	if !ok {
+		return
+	}
+	pt, _ := fa.X.Type().Underlying().(*types.Pointer)
+	if pt == nil {
+		return
+	}
+	stt, _ := pt.Elem().Underlying().(*types.Struct)
+	if stt == nil {
+		return
+	}
+	mu := stt.Field(fa.Field).Name()
+	base := vc.value(fr, fa.X)
+	if base.K != KPtr || base.L == nil || base.L.Kind != locObj {
+		return
+	}
+	for k := 0; k < stt.NumFields(); k++ {
+		f := stt.Field(k)
+		if g, ok := vc.eng.cs.Guards[typeKey(pt.Elem())+"."+f.Name()]; !ok || g != mu {
+			continue
+		}
+		loc := base.L.extend(pathElem{Field: k})
+		if mt, isMap := f.Type().Underlying().(*types.Map); isMap {
+			cur := vc.load(st, loc)
+			if cur.K == KRef {
+				mh := vc.mapHeaps(mt)
+				var names []string
+				for hn := range mh {
+					names = append(names, hn)
+				}
+				sort.Strings(names)
+				for _, hn := range names {
+					hs := mh[hn]
+					h := vc.heapGet(st, hn, hs)
+					_, args, _ := splitArgs(hs)
+					vc.heapSet(st, hn, hs, vc.sc.define("h", hs, store(h, cur.S, vc.sc.fresh("intf", args[1]))))
+				}
+			}
+			continue
+		}
+		nv, ok := vc.symbolic(f.Type(), "intf."+f.Name())
+		if !ok {
+			continue
+		}
+		vc.assume(st, vc.wf(st, nv))
+		vc.storeTo(st, loc, nv)
+	}
+	vc.note("interference: fields guarded by %s are re-read as arbitrary at each acquisition", mu)
 }
 
 func lockID(mu Val) string {
